@@ -14,7 +14,8 @@ import AiocoapModel.Blockwise.Overlap
      opts    `_` or `num=hex;num=hex…` (all other options in option_list order)
      payload hex, `-` (empty) or `r<len>.<a>.<b>` (byte i = (a + b·i) mod 256)
      h*      what the handler answers if it is invoked at this step; hcode `!<code>` = the
-             handler raises an exception that is rendered with that code (hopts/hpayload unused)
+             handler raises an exception that is rendered with that code (hopts/hpayload unused);
+             hcode `?` = the handler returns something that is not a message (`None`, a str, an int)
      opath   `message._original_request_path` of the request as the resource gets it: `-` if it has
              none, else `p` + the path components in hex joined by `.` (`-` = empty component, `p`
              alone = the empty path)
@@ -100,16 +101,19 @@ def showEntry (d : DStep) : String :=
 def parseBool (s : String) : Option Bool :=
   if s = "1" then some true else if s = "0" then some false else none
 
-/-- `<code>` (the handler returns a message) or `!<code>` (it raises) -/
-def parseHCode (s : String) : Option (Bool × Nat) :=
+/-- `<code>` (the handler returns a message), `!<code>` (it raises) or `?` (it returns something that
+is not a message: inner `none`) -/
+def parseHCode (s : String) : Option (Option (Bool × Nat)) :=
   match s.toList with
-  | '!' :: rest => (String.ofList rest).toNat?.map (fun c => (true, c))
-  | _ => s.toNat?.map (fun c => (false, c))
+  | ['?'] => some none
+  | '!' :: rest => (String.ofList rest).toNat?.map (fun c => some (true, c))
+  | _ => s.toNat?.map (fun c => some (false, c))
 
 /-- the plain options of what the handler returns (none when it raises) -/
 def outcomeOpts : Outcome → List Opt
   | .ok r => r.opts
   | .error _ => []
+  | .junk => []
 
 /-- `-` (no `_original_request_path`), or `p<hex>.<hex>…` -/
 def parseOPath (s : String) : Option (Option (List Bytes)) :=
@@ -148,8 +152,10 @@ def parseStep (s : String) : Option DTok :=
     let req : Msg := { remote := { key := rkey, maxPayload := mps, maxSzx := mszx }, code := code,
                        opts := opts, block1 := b1, block2 := b2, payload := payload, origPath := opath }
     let resp : Outcome :=
-      if hcode.1 then .error hcode.2
-      else .ok { code := hcode.2, opts := hopts, block1 := none, block2 := none, payload := hpayload }
+      match hcode with
+      | none => .junk
+      | some (true, c) => .error c
+      | some (false, c) => .ok { code := c, opts := hopts, block1 := none, block2 := none, payload := hpayload }
     pure (.req { res := res, dt := dt, obs := obs, hold := hold,
                  inp := fun now => { now := now, assemble := asm, req := req, render := fun _ => resp } })
   | _ => none
